@@ -32,6 +32,24 @@ Definition path_eqb : path -> path -> bool := list_eqb name_eqb.
    (regenerated into Extracted.lb_write_order) *)
 Inductive wstep := WMkdir | WOpenTrunc | WSetLen | WCopy | WSync | WHook | WRename.
 
+(* the object-store adapter statement by statement: the calls each trait method makes on the
+   opendal operator, in source order, plus the two control-flow shapes that matter
+   (regenerated into Extracted.od_calls; anything unknown becomes OcOther) *)
+Inductive odfn := FWrite | FRemove | FReadFull | FReadPartial | FList | FSizes.
+Inductive odcall :=
+| OcFilterEmpty        (* content.into_vec().into_iter().filter(|chunk| !chunk.is_empty()) *)
+| OcWrite | OcDelete | OcRead | OcReadOptions | OcExists | OcStat | OcLister
+| OcEarlyReturn        (* a `return` statement *)
+| OcOther.
+(* likewise the directory backend's read-side methods and remove: every file-system call and
+   every `return`, in source order (write_bytes has its own table, wstep) *)
+Inductive lbfn := LReadFull | LReadPartial | LList | LSizes | LRemove.
+Inductive lbcall :=
+| LcFsRead | LcFileOpen | LcSeek | LcReadExact | LcWalkDir | LcExists | LcMetadata | LcIsFile | LcParseSome
+| LcRemoveFile | LcCommand | LcReturn | LcOther.
+(* layers wrapped around the operator in OpenDALBackend::new *)
+Inductive odlayer := LRetry | LThrottle | LConcurrentLimit | LLogging | LOther.
+
 (* results: Ok / error return / panic (debug-build arithmetic overflow) *)
 Inductive res (A : Type) := Ok (a : A) | Err | Panic.
 Arguments Ok {A} a.
